@@ -22,6 +22,12 @@ class PROP(Prop):
             fr = mb.rtu_frame(slave, mb.spec_req_pdu(req))
             nxt = mb.rtu_frame(rng.randrange(256), b"\x11")
             self.srv(cs, [fr], rng, "valid")
+            # structured damage of the CRC field: bytes transposed, complemented, off by one, zeroed, the CRC of a neighbouring slice
+            c = fr[-2:]
+            crc_prev = mb.crc16(fr[:-3]); crc_all = mb.crc16(fr)
+            for bad in {bytes([c[1], c[0]]), bytes([c[0] ^ 0xFF, c[1] ^ 0xFF]), bytes([(c[0] + 1) & 0xFF, c[1]]), bytes([c[0], (c[1] + 1) & 0xFF]), b"\x00\x00", b"\xff\xff",
+                        bytes([crc_prev & 0xFF, crc_prev >> 8]), bytes([crc_all & 0xFF, crc_all >> 8])} - {bytes(c)}:
+                self.srv(cs, [fr[:-2] + bad + nxt] if rng.random() < 0.5 else [fr[:-2] + bad], rng, "crcfield")
             # single-bit flips
             for bit in range(len(fr) * 8):
                 b = bytearray(fr); b[bit // 8] ^= 1 << (bit % 8)
@@ -67,6 +73,10 @@ class PROP(Prop):
                 b = bytearray(fr); b[bit // 8] ^= 1 << (bit % 8)
                 variants.append(("flip1", bytes(b)))
             variants.append(("noise", bytes(rng.randrange(256) for _ in range(rng.randrange(1, 10))) + fr))
+            c2 = fr[-2:]
+            if c2[0] != c2[1]:
+                variants.append(("crcswap", fr[:-2] + bytes([c2[1], c2[0]])))
+            variants.append(("crccompl", fr[:-2] + bytes([c2[0] ^ 0xFF, c2[1] ^ 0xFF])))
             for kind, data in variants:
                 parts = mb.chunkings(data, rng, 1)[0]
                 cs.append(Case(cligen.cli_line("rtu", slave, [cligen.call_op(req, R=mb.rscript(parts))]),
